@@ -491,20 +491,22 @@ impl Session {
             Some(flow_next_incoming_id) => {
                 // The remote-incoming-window is computed as follows:
                 // next-incoming-id_flow + incoming-window_flow - next-outgoing-id_endpoint
-                self.remote_incoming_window = flow_next_incoming_id
-                    .saturating_add(flow.incoming_window)
-                    .saturating_sub(self.next_outgoing_id);
+                //
+                // Transfer ids are RFC-1982 serial numbers: the number of transfers
+                // in flight is taken modulo 2^32 so that the result stays correct
+                // when the ids wrap around.
+                let in_flight =
+                    serial_distance(*flow_next_incoming_id, self.next_outgoing_id);
+                self.remote_incoming_window = flow.incoming_window.saturating_sub(in_flight);
             }
             None => {
                 // If the next-incoming-id field of the flow frame is not set,
                 // then remote-incoming-window is computed as follows:
                 // initial-outgoing-id_endpoint + incoming-window_flow -
                 // next-outgoing-id_endpoint
-                self.remote_incoming_window = self
-                    .initial_outgoing_id
-                    .value()
-                    .saturating_add(flow.incoming_window)
-                    .saturating_sub(self.next_outgoing_id);
+                let in_flight =
+                    serial_distance(*self.initial_outgoing_id.value(), self.next_outgoing_id);
+                self.remote_incoming_window = flow.incoming_window.saturating_sub(in_flight);
             }
         }
 
@@ -1154,6 +1156,18 @@ cfg_transaction! {
             // FIXME: This should be impossible
             Ok(Err(TransactionError::UnknownId))
         }
+    }
+}
+
+/// How far `to` is ahead of `from` in RFC-1982 serial number arithmetic.
+///
+/// Returns 0 if `to` is not ahead of `from`.
+fn serial_distance(from: TransferNumber, to: TransferNumber) -> u32 {
+    let distance = to.wrapping_sub(from);
+    if distance > i32::MAX as u32 {
+        0
+    } else {
+        distance
     }
 }
 
